@@ -190,18 +190,28 @@ def check_C13(chk, tier, seed):
         if im != want:
             chk.violation("one client object whose server was replaced between connect() calls (match, another trusted matching certificate, a certificate for another "
                           "name, match again): expected " + want[8:] + ", observed " + short(im, 200), dict(case=c, impl=short(im), expected=want))
+    # two TLS clients in one process, the first stuck in a handshake with a peer that never answers: the second gets its session
+    two = core.run_sharded([eng.harness, "codec"], eng.prelude, ["TLSTWO 1", "TLSTWO 0"], shards=2, timeout=300, env=NET_ENV)
+    for c, im in zip(["TLSTWO 1", "TLSTWO 0"], two):
+        chk.case(c, True)
+        chk.validated += 1
+        chk.count("two-clients-one-stuck")
+        if im != "TLSTWO connect=ok":
+            chk.violation("a TLS client did not get its session with a trusted, matching server while another client of the same process was stuck in a handshake: " + short(im, 200),
+                          dict(case=c, impl=short(im)))
     # an endpoint that chooses its certificate by the name the client asks for (SNI; `openssl s_server` with a default certificate
     # for another name): the client was told "localhost", the endpoint has a trusted certificate for it - accepted, verification on or off
-    sni = core.run_sharded([eng.harness, "codec"], eng.prelude, ["TLSSNI 1", "TLSSNI 0"], shards=2, timeout=300, env=NET_ENV)
-    for c, im in zip(["TLSSNI 1", "TLSSNI 0"], sni):
+    snicases = ["TLSSNI 1", "TLSSNI 0", "TLSSNI 1 tls13", "TLSSNI 0 tls13", "TLSSNI 1 alpn", "TLSSNI 0 alpn"]     # (tls13: a TLS-1.3-only endpoint; alpn: one with ALPN configured for other protocols)
+    sni = core.run_sharded([eng.harness, "codec"], eng.prelude, snicases, shards=6, timeout=300, env=NET_ENV)
+    for c, im in zip(snicases, sni):
         chk.case(c, True)
         chk.validated += 1
         if im.startswith("TLSSNI skipped"):
             chk.count("skipped:no-sni-endpoint")
             continue
-        chk.count("sni-selected-certificate")
+        chk.count("openssl-endpoint:" + (c.split()[2] if len(c.split()) > 2 else "sni"))
         if im != "TLSSNI connect=ok":
-            chk.violation("a client told to connect to a host name was refused by an endpoint that holds a trusted certificate for that name and selects it by SNI: " + short(im, 200),
+            chk.violation("a client told to connect to a host name was refused by an endpoint (openssl s_server: certificate selected by SNI / TLS 1.3 only / ALPN configured) that holds a trusted certificate for that name: " + short(im, 200),
                           dict(case=c, impl=short(im)))
     # a plain-text peer whose FIRST message is something a TLS-identity server might be tempted to treat specially: an ordinary
     # request, capabilities exchanges announcing in-band security (Inband-Security-Id 0 / 1, RFC 3588 style), a watchdog, a
@@ -295,7 +305,7 @@ def check_C13(chk, tier, seed):
                        "timeouts: 2.5 s to connect, 2.5 s for the answer, on loopback"]
 
 
-FAULTS = ["announce-leave", "malformed", "oversized", "zero-length", "stall-midframe", "stall-setup", "garbage-setup", "reset", "reset-midframe", "handler-panic", "handler-panic-sync", "handler-panic-fmt", "handler-panic-unwrap", "vanish-before-answer", "deep-nesting", "vendor-zero", "nest-30", "announce-stall", "exact-1mib", "reset-same-port", "unread-then-malformed"]
+FAULTS = ["announce-leave", "malformed", "oversized", "zero-length", "stall-midframe", "stall-setup", "garbage-setup", "reset", "reset-midframe", "handler-panic", "handler-panic-sync", "handler-panic-fmt", "handler-panic-unwrap", "vanish-before-answer", "deep-nesting", "vendor-zero", "nest-30", "announce-stall", "exact-1mib", "reset-same-port", "unread-then-malformed", "partial-hello", "avp-length-zero", "flood-no-read"]
 
 
 def check_C10(chk, tier, seed):
@@ -336,6 +346,11 @@ def check_C10(chk, tier, seed):
     # more peers than the runtime has worker threads, each leaving answers unread behind a closed receive window and then sending a
     # malformed frame: giving such a connection up must not occupy a thread (a close that waits for the queued answers to drain)
     cases.append(f"NET 0 4 3 {hx(rng.below(1 << 32))} 12 " + " ".join(["unread-then-malformed"] * 12))
+    # more frames whose AVP announces length 0 than the runtime has worker threads (whoever walks AVPs by their length must not stand still),
+    # and peers hanging up inside the TLS handshake, several in a row
+    for tls in (0, 1):
+        cases.append(f"NET {tls} 3 3 {hx(rng.below(1 << 32))} 8 " + " ".join(["avp-length-zero"] * 8))
+    cases.append(f"NET 1 3 3 {hx(rng.below(1 << 32))} 6 " + " ".join(["partial-hello"] * 6))
     n = 12 if tier == "quick" else 400
     for k in range(n):
         r = rng.fork(f"n{k}")
@@ -356,6 +371,14 @@ def check_C10(chk, tier, seed):
                           dict(case=c, impl=short(im)))
         if i % max(1, len(cases) // 6) == 0:
             chk.sample(dict(case=c, impl=im, P=ok))
+    # a TLS listener with a peer that never speaks; a client that connects seven seconds later and starts its handshake five seconds after that
+    slowhs = core.run_sharded([eng.harness, "codec"], eng.prelude, ["NETSLOWHS"], shards=1, timeout=300, env=NET_ENV)[0]
+    chk.case("NETSLOWHS", True)
+    chk.validated += 1
+    chk.count("slow-starting-tls-client-next-to-a-silent-peer")
+    if slowhs != "NETSLOWHS ok":
+        chk.violation("a TLS client that started its handshake late (12 s after a silent peer had connected, 5 s after its own TCP connection) was not served: " + short(slowhs, 200),
+                      dict(case="NETSLOWHS", impl=short(slowhs)))
     # a server that has been up for more than five seconds with connections that are open and idle, a peer stalled in mid-frame, a
     # new connection: the idle connections' next requests are answered (plain and TLS, side by side)
     aged = core.run_sharded([eng.harness, "codec"], eng.prelude, ["NETAGED 0", "NETAGED 1"], shards=2, timeout=300, env=NET_ENV)
